@@ -1,6 +1,9 @@
 package jet
 
-import "path"
+import (
+	"path"
+	"sync"
+)
 
 // H_smoke_arith: trivial arithmetic check used by the engine self-test.
 func H_smoke_arith() {
@@ -29,4 +32,52 @@ func H_smoke_path() {
 	c := path.Clean("/" + s)
 	vfAssert(len(c) >= 1 && c[0] == '/', "rooted")
 	vfAssert(len(c) <= 4, "no-growth")
+}
+
+// H_smoke_race: the race detector must report the unsynchronised counter and accept the
+// mutex-protected one (control for the C11 harnesses).
+func H_smoke_race() {
+	protected := ndBool("protected")
+	vfRace(2)
+	var mu sync.Mutex
+	var wg sync.WaitGroup
+	n := 0
+	for g := 0; g < 2; g++ {
+		wg.Add(1)
+		go func() {
+			defer wg.Done()
+			if protected {
+				mu.Lock()
+				n++
+				mu.Unlock()
+			} else {
+				n++
+			}
+		}()
+	}
+	wg.Wait()
+	vfAssert(n == 2 || !protected, "both increments happened")
+}
+
+// H_smoke_atomicity: no data race, but a lost update that only some schedules expose
+// (read under one critical section, write under another): schedule exploration must find it.
+func H_smoke_atomicity() {
+	vfRace(2)
+	var mu sync.Mutex
+	var wg sync.WaitGroup
+	n := 0
+	for g := 0; g < 2; g++ {
+		wg.Add(1)
+		go func() {
+			defer wg.Done()
+			mu.Lock()
+			t := n
+			mu.Unlock()
+			mu.Lock()
+			n = t + 1
+			mu.Unlock()
+		}()
+	}
+	wg.Wait()
+	vfAssert(n == 2, "no lost update")
 }
